@@ -85,20 +85,30 @@ package sm2
 // ---- signing (C02, C19) ----
 // GM/T 0003.2: r = (e + x1) mod n with (x1,y1) = [k]G;  s = ((1+d)^-1 (k - r d)) mod n;
 // a candidate k is rejected iff k is outside [1,n-1], r = 0, r + k = n or s = 0.
-//@ define std_r(e, k) = (e + affx(gmul(k))) % N
-//@ define std_s(d, e, k) = (invmod(1 + d, N) * ((k - std_r(e, k) * d) % N)) % N
+//@ define opaque Int std_r(e, k) = (e + affx(gmul(k))) % N
+//@ define opaque Int std_s(d, e, k) = (invmod(1 + d, N) * ((k - std_r(e, k) * d) % N)) % N
 //@ define rejected(d, e, k) = k >= N || k == 0 || std_r(e, k) == 0 || std_r(e, k) + k == N || std_s(d, e, k) == 0
 
 //@ func sm2.SignHashed
 //@ mode int
-//@ use_axiom order
 //@ ensures badkey: !(len(priv) <= 32 && 1 <= be(priv) && be(priv) <= N - 2) ==> nonnil(err) && rdidx == old(rdidx)
-//@ ensures drawn: !nonnil(err) ==> old(rdidx) < rdidx && !rejected(be(priv), be(e), draw(rdidx - 1))
+//@ ensures drawn: !nonnil(err) ==> old(rdidx) < rdidx && 1 <= draw(rdidx - 1) && draw(rdidx - 1) < N
+//@ ensures drawn_r: !nonnil(err) ==> std_r(be(e), draw(rdidx - 1)) != 0
+//@ ensures drawn_rk: !nonnil(err) ==> std_r(be(e), draw(rdidx - 1)) + draw(rdidx - 1) != N
+//@ ensures drawn_s: !nonnil(err) ==> std_s(be(priv), be(e), draw(rdidx - 1)) != 0
 //@ ensures skipped: !nonnil(err) ==> forall(j, old(rdidx), rdidx - 1, rejected(be(priv), be(e), draw(j)))
 //@ ensures val: !nonnil(err) ==> len(r) == 32 && len(s) == 32 && be(r) == std_r(be(e), draw(rdidx - 1)) && be(s) == std_s(be(priv), be(e), draw(rdidx - 1))
 //@ ensures fail: nonnil(err) ==> r == nil && s == nil
+//@ after kG, err = internal.ScalarBaseMult(KK) :: trust order: isinf(gmul(be(K[0:32]))) == (be(K[0:32]) % N == 0)
+//@ after rInt.Mod(&rInt, n) :: reveal(std_r(be(e), be(K[0:32])))
+//@ after rInt.Mod(&rInt, n) :: assert rdef: rInt == std_r(be(e), be(K[0:32]))
 //@ after copy(buf[32-len(d1Bytes):], d1Bytes) :: leftpad(buf[0:32], d1Bytes)
+//@ after d1.SetBytes(buf[:]) :: assert d1def: sv(d1) == 1 + be(priv)
+//@ after d1Inv.Invert(&d1) :: assert udef: sv(d1Inv) == invmod(1 + be(priv), N)
 //@ after sInt.Mod(&sInt, n) :: trust L2: (rkInt * invmod(1 + be(priv), N) - rInt) % N == (invmod(1 + be(priv), N) * ((k - rInt * be(priv)) % N)) % N
+//@ after sInt.Mod(&sInt, n) :: reveal(std_s(be(priv), be(e), be(K[0:32])))
+//@ after sInt.Mod(&sInt, n) :: reveal(std_r(be(e), be(K[0:32])))
+//@ after sInt.Mod(&sInt, n) :: assert sdef: sInt == std_s(be(priv), be(e), be(K[0:32]))
 //@ loop 1
 //@ modifies rdidx
 //@ invariant idx: old(rdidx) <= rdidx
